@@ -9,6 +9,7 @@ struct GenOpts
     bool thorough = false;
     int force_family = -1;   // >= 0: only this family
     bool no_faults = false;
+    bool no_edge_preemption = false;  // C20: yield points at operator applications / checkpoints / API boundaries only
     long index = -1;         // run index inside the batch (family rotation of enumerations)
     bool single_shot = false;  // calibration: script = one init, one compute
 };
